@@ -2,7 +2,8 @@
    Pinned statements only.  Model: Model/Manip.v (m_clone = clone_node), Model/Hist.v (clone_with_prefixes). *)
 From Coq Require Import List NArith ZArith.
 From XotV Require Import Model.Base Model.Zipper Model.Access Model.Store Model.Manip Model.Fullname Model.Scope Model.NsTools Model.Hist
-                         Proofs.ManipProofs Proofs.InvSteps Proofs.CloneFrame Proofs.TreeFrame.
+                         Proofs.ManipProofs Proofs.InvSteps Proofs.InvApi Proofs.CloneFrame Proofs.TreeFrame Proofs.TreeFrameApi.
+From XotV Require Import Model.Interning.
 Import ListNotations.
 Open Scope N_scope.
 
@@ -83,3 +84,12 @@ Theorem C12_mutating_one_side_leaves_the_other_untouched :
     exists A' B', store (fold_left (fun s o => fst (mstep s o)) ops st) = fapp A' (fapp T B').
 Proof. exact tree_frame_history. Qed.
 Print Assumptions C12_mutating_one_side_leaves_the_other_untouched.
+
+(* the same over every call the harness draws, including clone_with_prefixes, create_missing_prefixes, deduplicate_namespaces
+   and remove_insignificant_whitespace (Model/Hist.v tstep) *)
+Theorem C12_api_mutating_one_side_leaves_the_other_untouched :
+  forall nm T ops t st, Good st -> (exists A B, store st = fapp A (fapp T B)) ->
+    (forall o x, In o ops -> In x (top_args o) -> ~ In x (ids T)) ->
+    exists A' B', store (snd (tfinal nm (t, st) ops)) = fapp A' (fapp T B').
+Proof. exact tree_frame_api_history. Qed.
+Print Assumptions C12_api_mutating_one_side_leaves_the_other_untouched.
